@@ -569,11 +569,39 @@ func (u *Unit) opaqueLibraryCall(c *ast.CallExpr, fun ast.Expr, fn *types.Func, 
 	}
 	u.D.Trust("library call " + name + " is opaque: arbitrary result, no effect on modelled state")
 	var vals []Value
+	errv := Term{}
 	for i := 0; i < sig.Results().Len(); i++ {
 		rt := sig.Results().At(i).Type()
 		v := u.D.Fresh("lib_"+fn.Name(), u.sortOf(rt))
 		u.typeInvariant(env, v, rt)
+		if v.Sort == SErr {
+			errv = v
+		}
 		vals = append(vals, Value{v, rt})
+	}
+	if u.effectfulCallbacks() {
+		// a call through an opaque interface value (e.g. the wrapped http.RoundTripper): event of kind 2
+		if se, ok := fun.(*ast.SelectorExpr); ok {
+			if sel := u.Info.Selections[se]; sel != nil {
+				if _, isIface := types.Unalias(sel.Recv()).Underlying().(*types.Interface); isIface {
+					recv := u.eval(se.X, env)
+					u.safety(env, "nil", c.Pos(), u.exprText(se.X)+" (interface method call)", Not(u.untyped(recv.Term)))
+					arg := Term{"nil_Val", SVal}
+					if len(c.Args) > 0 {
+						av := u.eval(c.Args[0], env)
+						arg = av.Term
+						if av.Sort != SVal {
+							arg = u.box(av).Term
+						}
+					}
+					u.emit(env, 2, Term{}, arg, recv.Term, errv)
+					for i, v := range vals {
+						env.alias[fmt.Sprintf("_ifaceres%d", i)] = v.Term
+						env.aliasTy[fmt.Sprintf("_ifaceres%d", i)] = v.Ty
+					}
+				}
+			}
+		}
 	}
 	return ret(env, vals...)
 }
